@@ -4,9 +4,10 @@ Never touches /repo's working tree."""
 import sys, os, subprocess, tempfile, shutil, json, time
 
 def main(argv):
-    d = argv[0]; pids = [a for a in argv[1:] if not a.startswith('--')]
     tier = 'quick'
-    if '--tier' in argv: tier = argv[argv.index('--tier') + 1]
+    if '--tier' in argv:
+        k = argv.index('--tier'); tier = argv[k + 1]; argv = argv[:k] + argv[k + 2:]
+    d = argv[0]; pids = [a for a in argv[1:] if not a.startswith('--')]
     d = os.path.abspath(d); patch = os.path.join(d, 'patch.diff') if os.path.isdir(d) else d
     wt = tempfile.mkdtemp(prefix='cc6502_mut_', dir='/tmp')
     os.rmdir(wt)
